@@ -46,7 +46,7 @@ ASSUMPTIONS = [
     "views (values/locations/items/pointers) are terminal: once a view of a handle is opened no further chained operation is applied to that handle, but the view itself may be consumed lazily, interleaved with operations on other handles; the original handle is not used after tee(), as documented",
     "a handle is not observed again after last_one() (the statement does not say what remains)",
 ]
-PROBES = ["lazy_view_interleaved", "neg_refused", "tee_alternation", "take_then_parent", "empty_source", "drain_after_chain3"]
+PROBES = ["lazy_view_interleaved", "neg_refused", "tee_alternation", "take_then_parent", "empty_source", "drain_after_chain3", "tee_default_argument"]
 
 LIMIT_OPS = ["limit", "head", "first"]
 SKIP_OPS = ["skip", "drop"]
@@ -115,7 +115,8 @@ def generate(seed: int, config: str, tier: str) -> Dict[str, Any]:
     for _ in range(n_ops):
         kind = rng.choice(kinds)
         if kind == "tee":
-            n = rng.choice([-1] if rng.random() < p_neg else [0, 1, 2, 2, 2, 3, 3, 4, 5])
+            # None: tee() with its default argument (two copies)
+            n = rng.choice([-1] if rng.random() < p_neg else [0, 1, 2, 2, None, None, 3, 3, 4, 5])
         elif kind in LIMIT_OPS + SKIP_OPS + TAIL_OPS + ["take"]:
             n = -1 if rng.random() < p_neg else (rng.randint(0, L + 2) if L <= 20 or rng.random() < 0.5 else rng.choice([255, 256, 257, L - 1, L, L + 1]))
         else:
@@ -276,6 +277,9 @@ def execute(spec: Dict[str, Any], ctx: Ctx) -> None:
 
     for op in plan["ops"]:
         kind, n = op[0], op[1]
+        tee_default = n is None  # tee() called with its default argument
+        if tee_default:
+            n = 2
         lazy = len(op) > 2 and bool(op[2])
         if not live:
             break
@@ -341,7 +345,11 @@ def execute(spec: Dict[str, Any], ctx: Ctx) -> None:
                 live.append(child)
                 ctx.count("probe.take_then_parent")
             elif kind == "tee":
-                kids = h.q.tee(n)
+                if tee_default:
+                    kids = h.q.tee()
+                    ctx.count("probe.tee_default_argument")
+                else:
+                    kids = h.q.tee(n)
                 if len(kids) != n:
                     raise Violation("C12.tee", f"tee({n}) returned {len(kids)} queries", "C12.tee:arity")
                 for kq in kids:
@@ -441,7 +449,7 @@ def shrink_plan(plan: Dict[str, Any]) -> Iterator[Dict[str, Any]]:
             p["ops"] = [list(x) for x in plan["ops"]]
             p["ops"][i] = [kind, n]
             yield p
-        if n > 0:
+        if n is not None and n > 0:
             for m in (0, 1, n - 1):
                 if 0 <= m < n:
                     p = dict(plan)
